@@ -114,6 +114,11 @@ def check(prop, tier, seed, out):
         jobs = treecheck.make_jobs("C15" if prop == "C03" else "C20", "quick", seed + 300)
         if tier == "quick":
             jobs = jobs[:240]
+        if prop == "C03":
+            # ... and one run of 2^32 real calls (16 samples of 2^28 iterations over all cores): counts beyond 32 bits, end to end
+            # (run on its own, before the others, so that its 16 threads have the cores to themselves)
+            bulk, _, _ = treecheck.run_jobs(prop, treecheck.bulk_jobs(seed), out, want={prop})
+            out.extra["end_to_end_bulk"] = bulk
         e2e, _, _ = treecheck.run_jobs(prop, jobs, out, want={prop})
         out.extra["end_to_end"] = e2e
         out.require("e2e_executions", e2e.get("executions", 0), 200)
